@@ -169,5 +169,24 @@ CHECKS["C12"] = {
             "paired real learners, factors 2^k, k in [-30, 30], compared bit for bit at every step; generic factors to 1e-6.",
     "design_ref": "DESIGN.md section 6 C12", "note": _L1D_NOTE + " One LearnerND defect found here was repaired by a fix: commit; one is a recorded finding (absolute log-det cut).", "technique": T,
 }
+CHECKS["C20"] = {
+    "level": "proof",
+    "text": "Kernel-checked theorems over every ordered field about Lean definitions that harness/translate.py regenerates "
+            "from the repository's source on every run (fast_norm, fast_det 2x2/3x3 = Matrix.det, 2-D/3-D circumcentre "
+            "equidistant + unique + radius, in-triangle test = barycentric coordinates in [0,1] / convex combination, "
+            "Heron = Gram determinant = |det|/2, volume = |det|/d!, 1-D uniform/default/triangle losses, linspace; invariance "
+            "under translation, relabelling, rigid motions, homogeneity; sanity of the tolerances read from the live modules). "
+            "Tie: the same definitions evaluated at Float agree bit for bit (<= 4 ulp where libm hypot is involved) with the "
+            "real functions on seeded inputs. Search: exact Fraction re-computation of every primitive's meaning incl. the "
+            "numpy general-dimension branches, N-D/2-D losses and quadrature constants, dims 1-5.",
+    "design_ref": "DESIGN.md section 6 C20",
+    "note": "Trusted: Lean kernel, standard axioms, harness/translate.py (python subset -> Lean, kernel table for "
+            "sqrt/abs/array/broadcasting/hypot/pdist/factorial) and the constants dump; sqrt assumed to satisfy "
+            "0<=x -> 0<=sqrt x and sqrt x * sqrt x = x (Real.sqrt does); IEEE rounding outside the theorems. General-dimension "
+            "numpy branches, N-D/2-D loss functions and integrator_coeffs are modelled-not-verified (exact oracle only). "
+            "Non-degenerate inputs. Six functions raise for every input under the installed NumPy/SciPy and are listed as "
+            "environmental in the evidence.",
+    "technique": "Lean 4 theorems over definitions translated from /repo on every run + bit-level correspondence with /repo",
+}
 _PENDING = "machinery for this property is not built yet in this commit (work in progress; see DESIGN.md section 9)"
 NOT_APPLICABLE = {f"C{i:02d}": _PENDING for i in range(1, 21) if f"C{i:02d}" not in CHECKS}
